@@ -1,1 +1,46 @@
-PROP = {'coq': ['theories/Properties/C08.v'], 'suites': [{'bin': 'obs-numscript', 'corpus': 'numscript'}], 'trusted': ['hand-written models Numscript/{Funding,VM,Syntax,Compiler,Run,Sem}.v of internal/machine/{funding,allotment,portion,monetary}.go, vm/{machine,run,stack}.go, script/compiler/*.go; tied on every run by correspondence: real compiler + machine vs model on generated programs x variable maps x stores (bytecode, resources, sources, needed balances, lock sets, postings, metadata, printed values, error class, panic flag), and Sem (source semantics) vs the real run end to end', 'the real ANTLR lexer/parser produces the AST the model consumes (parse-tree dump harness/nsx/ast.go is mechanical glue); machine.NewValueFromString / ParsePortionSpecific enter as harness-computed tables', 'math/big, encoding/json are exercised, not modelled; Go aliasing inside a shared *Program is covered by the run-twice oracle only'], 'assumptions': ['gcache returns only what was Set under that key; SHA-256 has no collision among the scripts seen'], 'manifest': {'text': 'Coq theorem compile_correct: for every script the model compiler accepts, the model machine running the compiled code computes exactly the source semantics Sem (postings, metadata, printed values, error class; hence no panic), for all variable values and balance tables; cache transparency for any cache whose entries are (text, compile text). Models tied to the working tree on every run: bytecode/resources equality with the real compiler and outcome equality with the real machine on generated programs.', 'note': 'Trusted: Coq kernel; hand-written models validated by correspondence only; ANTLR parser not modelled (real parser feeds the model); SHA-256 collision freedom of the cache key; known finding F-C08c (ordered destination with kept before a later max over-commits) is excluded as stated in known_findings.json.', 'technique': 'Coq proof (compiler correctness by structural induction on the AST over a straight-line VM) + differential correspondence model vs real compiler/VM', 'design_ref': 'DESIGN.md 5 C08'}}
+PROP = {'coq': ['theories/Properties/C08.v'],
+ 'suites': [{'bin': 'obs-numscript', 'corpus': 'numscript'}],
+ 'trusted': ['hand-written models Numscript/{Funding,VM,Syntax,Compiler,Run,Sem}.v of '
+             'internal/machine/{funding,allotment,portion,monetary}.go, vm/{machine,run,stack}.go, script/compiler/*.go; tied on every run '
+             'by correspondence: real compiler + machine vs model on generated programs x variable maps x stores (bytecode, resources, '
+             'sources, needed balances, lock sets, postings, metadata, printed values, error class, panic flag), and Sem (source '
+             'semantics) vs the real run end to end',
+             'the real ANTLR lexer/parser produces the AST the model consumes (parse-tree dump harness/nsx/ast.go is mechanical glue); '
+             'machine.NewValueFromString / ParsePortionSpecific enter as harness-computed tables',
+             'math/big, encoding/json are exercised, not modelled; Go aliasing inside a shared *Program is covered by the run-twice oracle '
+             'only'],
+ 'assumptions': ['front-end side conditions of the theorems, both executable (Numscript/CompileCorrectProps.v in_fragment = norm_script && '
+                 'statement list non-empty): ratio literals reach the model in lowest terms (they are big.Rat values, math/big keeps them '
+                 "normalised; the compiler's constant table compares ratios by cross-multiplication, so the unconditional statement is "
+                 'false of the model: C08_unconditional_refuted_unnormalised_ratio) and a script has at least one statement (NumScript.g4 '
+                 '`script` rule; an empty program makes Machine.Execute index Instructions[0]: C08_unconditional_refuted_empty_script)',
+                 'typing of the values handed over by the glue: every value SetVarsFromJSON stores for a resource Variable{Typ,Name} has '
+                 'type Typ (vars_typed (p_res p) vars; implied by the script-level form "every supplied plain variable has its declared type", vars_typed_script, theorems *_script) and every NewValueFromString(Typ, raw) result has type Typ (parse_typed store); '
+                 'both functions type-check in Go and enter the model as harness-computed tables; without it the model predicts a panic '
+                 '(C12_no_panic_without_typing_refuted)',
+                 'cache: gcache.Get returns only what an earlier Set stored under that key (cache_sound is preserved by cache_after for '
+                 'any eviction / failed Set); SHA-256 is injective on the script texts offered (hypothesis of C08_cache_sequence); key '
+                 'comparison is string equality'],
+ 'manifest': {'text': 'Coq theorem C08_compile_correct (Numscript/CompileCorrect.v, closed under the global context, no fragment '
+                      'restriction: expressions, account/max/in-order/allotment sources with all overdraft forms, '
+                      'account/in-order-with-kept/allotment destinations, send, save, metadata, print, fail, variables with '
+                      'meta()/balance() origins): for every script the model compiler accepts and every resolved resource table, balance '
+                      'table and set of extra metadata keys, the model machine running the compiled code returns exactly what the source '
+                      'semantics Sem returns - same postings, transaction/account metadata, printed values, same error class; hence never '
+                      "a panic. C08_resolve_establishes + C08_pipeline: ResolveResources/ResolveBalances establish the theorem's "
+                      'hypothesis, so compile -> set vars -> resolve -> run equals Sem on what was resolved, for every variable map and '
+                      'store. C08_reject_no_run: a rejected program is not run. C08_cache_transparent / C08_cache_sequence: a cache that '
+                      'is any partial map of (sha text -> compile text) entries, under any eviction and any call sequence, answers as '
+                      'fresh compilations. Models tied to the working tree on every run: bytecode/resources/sources/needed-balances '
+                      'equality with the real compiler and outcome equality of both the model machine and Sem with the real machine on '
+                      'generated programs.',
+              'note': 'Trusted: Coq kernel; hand-written models validated by correspondence only; ANTLR parser not modelled (real parser '
+                      'feeds the model). Side conditions of the theorem (lowest-terms ratio literals, non-empty statement list, typed glue '
+                      'values) are stated in assumptions with refutation witnesses showing each is necessary. Not proved here: the '
+                      "declarative well-formedness judgement of DESIGN 5-C08 (reject_sound) - only 'rejected => not run'; sem-refines-spec "
+                      'is C03. SHA-256 injectivity on the offered texts is a hypothesis. Known finding F-C08c (ordered destination with '
+                      'kept before a later max over-commits) is a property of Sem itself and is preserved, not introduced, by compilation.',
+              'technique': 'Coq proof (compiler correctness by structural induction on the AST - custom induction principles for nested '
+                           'sources and mutual destinations - over a straight-line stack VM; Hoare-style lemmas for the compiler state '
+                           'monad) + differential correspondence model vs real compiler/VM',
+              'design_ref': 'DESIGN.md 5 C08'}}
